@@ -460,6 +460,29 @@ Section Cmds.
   Qed.
 
   (* ---------- clear / expire / persist on collections ---------- *)
+  Lemma R_fold_el_del_z s1 s2 t k v (l : list Z) : RR s1 s2 -> (t, k, v) <> (t0, k0, g) ->
+    RR (fold_left (fun st i => el_del st t k v (SI i)) l s1) (fold_left (fun st i => el_del st t k v (SI i)) l s2).
+  Proof. intros H Hn. apply (R_fold_el_del T t0 k0 g s1 s2 t k v (fun i : Z => SI i)); auto. Qed.
+
+  Lemma R_zrem_all s1 s2 k h ud : RR s1 s2 -> (TZ, k, h_ver h) <> (t0, k0, g) ->
+    ((TZ, k) = (t0, k0) -> (~ hdead T h -> h_ver h <> g) /\ h_ver h <> 0) ->
+    snd (zrem_all Compact s1 ts k h ud) = snd (zrem_all Compact s2 ts k h ud) /\
+    RR (fst (zrem_all Compact s1 ts k h ud)) (fst (zrem_all Compact s2 ts k h ud)).
+  Proof.
+    intros H G1 G3. unfold zrem_all. destruct (h_ver h <? ts).
+    - cbn [fst snd]. split; auto. now apply R_meta_del.
+    - rewrite <- (zidx_R s1 s2 k (h_ver h) H G1).
+      destruct (R_zrem_entries s1 s2 k h ud (zidx s1 k (h_ver h)) H G1 G3) as [A B].
+      destruct (zrem_entries s1 k h ud (zidx s1 k (h_ver h))) as [a ra], (zrem_entries s2 k h ud (zidx s1 k (h_ver h))) as [b rb].
+      cbn [fst snd] in A, B. subst rb. destruct ra; cbn [fst snd]; auto.
+  Qed.
+  Lemma R_ldelete s1 s2 k h ud : RR s1 s2 -> (TL, k, h_ver h) <> (t0, k0, g) ->
+    RR (ldelete Compact s1 ts k h ud) (ldelete Compact s2 ts k h ud).
+  Proof.
+    intros H G1. unfold ldelete. destruct (h_ver h <? ts); [now apply R_meta_del|].
+    destruct (list_meta_of ud) as [[hd tl] n]. rewrite <- (R_elof _ _ _ _ _ _ H TL k (h_ver h) G1).
+    apply R_fold_el_del_z; auto. now apply R_meta_del.
+  Qed.
   Lemma P_coll_clear t k : forall s1 s2, RR s1 s2 ->
     snd (coll_clear Compact s1 ts t k) = snd (coll_clear Compact s2 ts t k) /\
     RR (fst (coll_clear Compact s1 ts t k)) (fst (coll_clear Compact s2 ts t k)).
@@ -468,7 +491,15 @@ Section Cmds.
     destruct (exist_cases _ _ t k H) as [(h & a & b & E1 & E2 & G1 & G2 & G3) | [N1 N2]].
     - rewrite E1, E2. cbn [not_exist_or_expired orb].
       destruct (match t with TL => snd (list_meta_of (Some (a, b))) | _ => size_of (Some (a, b)) end =? 0); [simpl; auto|].
-      cbn [fst snd]. split; auto. now apply R_meta_del.
+      destruct (h_ver h <? ts) eqn:V; [cbn [fst snd]; split; auto; now apply R_meta_del|].
+      destruct t.
+      + cbn [fst snd]. split; auto. apply R_el_del_gen; auto. now apply R_meta_del.
+      + cbn [fst snd]. split; auto. apply R_el_del_gen; auto. now apply R_meta_del.
+      + cbn [fst snd]. split; auto. apply R_el_del_gen; auto. now apply R_meta_del.
+      + destruct (R_zrem_all s1 s2 k h (Some (a, b)) H G1 G3) as [A B].
+        destruct (zrem_all Compact s1 ts k h (Some (a, b))) as [x nx], (zrem_all Compact s2 ts k h (Some (a, b))) as [y ny].
+        cbn [fst snd] in A, B. subst ny. cbn [fst snd]. auto.
+      + cbn [fst snd]. split; auto. now apply R_ldelete.
     - destruct (noe_header_true _ _ _ N1) as (h1 & u1 & x1 & E1 & X1).
       destruct (noe_header_true _ _ _ N2) as (h2 & u2 & x2 & E2 & X2).
       rewrite E1, E2, X1, X2. simpl; auto.
@@ -677,17 +708,13 @@ Section Cmds.
           try rewrite D1; try rewrite D2; cbn [fst snd]; split; auto. now apply R_kv_del.
   Qed.
 
-  Lemma R_fold_el_del_z s1 s2 t k v (l : list Z) : RR s1 s2 -> (t, k, v) <> (t0, k0, g) ->
-    RR (fold_left (fun st i => el_del st t k v (SI i)) l s1) (fold_left (fun st i => el_del st t k v (SI i)) l s2).
-  Proof. intros H Hn. apply (R_fold_el_del T t0 k0 g s1 s2 t k v (fun i : Z => SI i)); auto. Qed.
-
   Lemma P_ltrim k a b : P (CLTrim k a b).
   Proof.
     intros s1 s2 H. cbn [step]. unfold do_ltrim.
     destruct (exist_cases _ _ TL k H) as [(h & ua & ub & E1 & E2 & G1 & G2 & G3) | [N1 N2]].
     - rewrite E1, E2. cbn [not_exist_or_expired orb]. destruct (list_meta_of (Some (ua, ub))) as [[hd tl] llen]. cbv zeta.
       match goal with |- context [if ?c then _ else _] => destruct c end.
-      + cbn [fst snd]. split; auto. destruct (llen =? 0); auto. now apply R_meta_del.
+      + cbn [fst snd]. split; auto. destruct (llen =? 0); auto. now apply R_ldelete.
       + match goal with |- context [list_set_meta (fold_left ?f ?l2 (fold_left ?f ?l1 s1)) k h ?x ?y] =>
           pose proof (R_list_set_meta (fold_left f l2 (fold_left f l1 s1)) (fold_left f l2 (fold_left f l1 s2)) k h x y
                         (R_fold_el_del_z _ _ TL k (h_ver h) l2 (R_fold_el_del_z _ _ TL k (h_ver h) l1 H G1) G1) G3) as Y;
@@ -719,7 +746,10 @@ Section Cmds.
     - rewrite E1, E2. cbv zeta. rewrite <- (zidx_R s1 s2 k (h_ver h) H G1).
       destruct (size_of (Some (ua, ub)) =? 0); [simpl; auto|].
       match goal with |- context [if ?c then _ else _] => destruct c end.
-      { cbn [not_exist_or_expired orb fst snd]. split; auto. now apply R_meta_del. }
+      { cbn [not_exist_or_expired orb].
+        destruct (R_zrem_all s1 s2 k h (Some (ua, ub)) H G1 G3) as [A B].
+        destruct (zrem_all Compact s1 ts k h (Some (ua, ub))) as [x nx], (zrem_all Compact s2 ts k h (Some (ua, ub))) as [y ny].
+        cbn [fst snd] in A, B. subst ny. cbn [fst snd]. auto. }
       match goal with |- context [if ?c then _ else _] => destruct c end; [simpl; auto|].
       match goal with |- context [if ?c then _ else _] => destruct c end.
       { cbn [fst snd]. split; auto. apply R_incr_size; auto. }
